@@ -589,3 +589,8 @@ def check(ctx):
     z = ctx.sites(cc, "self._currsize = 0")          # (the chained `self._hits = self._misses = self._currsize = 0` is split into three stores)
     ctx.ob("R20-d", cc, "cache_clear drops the whole mapping and zeroes the counter together", len(s2) == 1 and len(z) == 1,
            detail="" if s2 and z else "cache_clear no longer pops the wrapper's mapping and resets _currsize in one step", by=("cache.pop(self) + _currsize = 0",))
+
+    # ---- R20-g the cache lives in a run variable of the event loop: the loop's run-variable store is never dropped wholesale while the
+    # loop lives (in-flight placeholders and their locks would vanish and an equal call would run the function a second time) (shared with C14/R14-i)
+    from .c14 import run_var_store_intact
+    run_var_store_intact(ctx, "R20-g")
